@@ -7,6 +7,12 @@
 //!    (B keyed / B re-keyed / B unbound / B absent) non-interference oracles;
 //!  * `rnw`: every Read-labelled method under every caller that may call it, on databases in
 //!    seven lifecycle states, with a drain for spawned tasks;
+//!  * `states`: the lifecycle states in which B is known to the server but not (normally) served -
+//!    registered but unopened after a failed reopen at startup, closed and unregistered, closed
+//!    with a failed registry write (still registered), re-keyed after a revocation, creation
+//!    interrupted at every mutation (one-shot error, outage, crash) - with every database-scope
+//!    method sent to B and A by the admin, B's key, A's key, the re-keyed world's key and nobody,
+//!    replayed in the four B-worlds for the callers that hold no key of B;
 //!  * `hist`: generated histories of create / close / open / connect / set_api_key /
 //!    remove_api_key / restart / crash-restart with a model of the bindings, probed after every
 //!    step, the same history replayed with B re-keyed and with B absent;
@@ -957,6 +963,236 @@ async fn rnw_case(cfg: &Cfg, life: Life, st: &mut Stats) -> Result<(), String> {
 }
 
 // ---------------------------------------------------------------------------------------------
+// monitor 2b: lifecycle states in which B is known to the server but not (normally) served
+
+/// Callers of the lifecycle-state monitor, relational ones first (their requests are replayed in
+/// every B-world on histories that are still identical).
+const STATE_CALLERS: [&str; 5] = ["key_a", "none", "key_b", "admin", "key_b_other"];
+
+/// A case stops once it has produced this many violations (a lazy reopen fires on every request).
+const STATE_CASE_MAX_VIOLATIONS: usize = 6;
+
+async fn states_case(cfg: &Cfg, life: Life, st: &mut Stats) -> Result<(), String> {
+    let kind = life.kind();
+    let n = cfg.names.clone();
+    let mut labs: Vec<Lab> = vec![];
+    for m in ALL_BMODES {
+        labs.push(Lab::new(spec(cfg, m, life)).await);
+    }
+    st.count(&format!("state:{kind}"));
+    st.set("lifecycle_states", vcore::fnv_str(&format!("{}|{life:?}", n.a)));
+
+    // --- is the world in the state the case is about? (else: inconclusive, never a pass)
+    let b_open = labs[0].w.b_open;
+    let reached: Result<(), String> = async {
+        let w = &labs[0].w;
+        if life.b_must_be_dormant() && b_open {
+            return Err("B is still served".to_string());
+        }
+        if matches!(life, Life::FailedReopenThenOpened | Life::RekeyedAfterRevoke) && !b_open {
+            return Err("B is not served".to_string());
+        }
+        if let Some(want) = life.b_must_be_registered() {
+            let got = w.reopened_by_a_restart(&n.b).await?;
+            if got != want {
+                return Err(format!("a restart over the current store would reopen B: {got}, expected {want}"));
+            }
+            st.count(&format!("state_registry_on_disk_confirmed:{kind}"));
+        }
+        Ok(())
+    }
+    .await;
+    if let Err(why) = reached {
+        st.inconclusive(format!("states: {life:?} was not reached ({why}); script: {:?}", labs[0].w.life_notes));
+        for lab in labs {
+            lab.w.shutdown().await;
+        }
+        return Ok(());
+    }
+    st.count(&format!("state_b_{}:{kind}", if b_open { "served" } else { "dormant" }));
+    if life.creates_b_late() {
+        let w = &labs[0].w;
+        let interrupted = w.life_notes.iter().any(|x| x.starts_with("db.create -> ") && !x.starts_with("db.create -> 200"));
+        if interrupted {
+            st.count("create_interrupted");
+            st.count(&format!("create_interrupted:{kind}"));
+        }
+        st.count(&format!(
+            "create_outcome:{kind}:{}:{}",
+            if b_open { "served" } else { "not_served" },
+            if w.b_bound_observed { "key_bound" } else { "key_not_bound" }
+        ));
+        st.set("create_cut_outcomes", vcore::fnv_str(&format!("{kind}|{b_open}|{}|{:?}", w.b_bound_observed, w.life_notes)));
+    }
+    st.sample(|| json!({"monitor": "states", "life": format!("{life:?}"), "world": world_desc(&labs[0].w),
+                        "b_served": b_open, "b_key_accepted": labs[0].w.b_bound_observed,
+                        "open_databases": labs[0].last.list, "script": labs[0].w.life_notes}));
+
+    // --- the uniform rejection of each encoding, per world
+    let none = &cfg.callers[0];
+    let probe_entry = Entry { method: "info".into(), aim: RootAim::Natural, oversize: false, traverse: false };
+    let encs = [Enc::Cbor, Enc::Json];
+    let mut canon: Vec<Vec<Resp>> = vec![];
+    for enc in encs {
+        let mut per_world = vec![];
+        for lab in labs.iter_mut() {
+            let r = send(&lab.w.app, &build_req(&n, none, &cfg.paths[0], enc, &probe_entry)).await?;
+            if r.status != 401 || r.error_code().as_deref() != Some("unauthorized") {
+                viol(st, "C14/reject/anonymous_root_not_401", json!({"world": world_desc(&lab.w), "response": r.describe()}));
+            }
+            per_world.push(r);
+        }
+        for i in 1..per_world.len() {
+            if per_world[i] != per_world[0] {
+                viol(st, "C14/isolation/rejection_differs_across_worlds",
+                     json!({"world": world_desc(&labs[i].w), "got": per_world[i].describe(), "reference": per_world[0].describe()}));
+            }
+        }
+        canon.push(per_world);
+    }
+
+    let picks: Vec<&Caller> = STATE_CALLERS.iter().filter_map(|k| cfg.callers.iter().find(|c| c.kind == *k)).collect();
+    let targets: Vec<&PathSpec> = ["B", "A", "root"].iter().filter_map(|l| cfg.paths.iter().find(|p| p.label == *l)).collect();
+    if picks.len() != STATE_CALLERS.len() || targets.len() != 3 {
+        st.inconclusive("states: callers / paths of the monitor not found in the configuration");
+    }
+    let block_mark = labs[0].w.rec.mark();
+    let (mut accounted, mut rebuilt) = (0usize, 0u32);
+    'all: for c in picks {
+        for p in &targets {
+            let exp0 = expect(&labs[0].w, c, &p.class);
+            let on_b = matches!(&p.class, PathClass::Db(name) if *name == n.b);
+            let served = match &p.class {
+                PathClass::Db(name) => labs[0].w.open_dbs().contains(name),
+                _ => true,
+            };
+            let tbl = if p.class == PathClass::Root { &cfg.table.root } else { &cfg.table.db };
+            // what is sent: a caller that must be rejected sends every name of both tables; an
+            // accepted caller sends the Read-labelled methods of the scope, and - where the database
+            // is not served, so that nothing can legitimately execute - the Mutating ones as well
+            let methods: Vec<String> = match &exp0 {
+                Expect::Reject => cfg.table.all_names().into_iter().chain(["nope".to_string()]).collect(),
+                _ => tbl
+                    .iter()
+                    .filter(|(_, e)| *e == Effect::Read || !served)
+                    .map(|(m, _)| m.clone())
+                    .chain((!served).then(|| "nope".to_string()))
+                    .collect(),
+            };
+            for (ei, enc) in encs.into_iter().enumerate() {
+                for m in &methods {
+                    let e = Entry { method: m.clone(), aim: RootAim::Natural, oversize: false, traverse: false };
+                    let req = build_req(&n, c, p, enc, &e);
+                    let obs0 = observe(&mut labs[0], &req, 8).await?;
+                    accounted += obs0.effective().len();
+                    st.count("states_requests");
+                    st.distinct(vcore::fnv_str(&format!("states|{}|{life:?}|{}|{}|{enc:?}|{m}", n.a, c.kind, p.label)));
+                    let dirty = judge(cfg, st, &labs[0].w, c, p, enc, &e, &req, &obs0, &exp0, &canon[ei][0], None);
+                    let label = label_of(&cfg.table, &p.class, m);
+                    match (&exp0, label) {
+                        (Expect::Reject, _) => st.count(&format!("state_rejected:{kind}:{}", c.kind)),
+                        (_, Some(Effect::Read)) => {
+                            st.count("states_read_executions");
+                            st.count(&format!("state_read:{kind}"));
+                            st.count(&format!("state_read_method:{m}"));
+                            if on_b && !served {
+                                st.count(&format!("state_dormant_read:{kind}:{}", c.kind));
+                                st.count(&format!("state_dormant_read_status:{}", obs0.resp.status));
+                            } else if !on_b && obs0.resp.status != 200 && (KNOWN_DB.contains(&m.as_str()) || KNOWN_ROOT.contains(&m.as_str())) {
+                                st.inconclusive(format!("states: read built to be valid answered {} ({m} on {}, {life:?})", obs0.resp.status, p.label));
+                            }
+                        }
+                        (_, Some(Effect::Mutating)) => {
+                            st.count(&format!("state_dormant_mutating:{kind}:{}", c.kind));
+                            st.count(&format!("state_dormant_mutating_status:{}", obs0.resp.status));
+                        }
+                        _ => {}
+                    }
+                    // the same request in the other B-worlds, for a caller that holds no key of B
+                    if c.relational {
+                        st.count("oracle_state_relational");
+                        for i in 1..labs.len() {
+                            let exp_i = expect(&labs[i].w, c, &p.class);
+                            let obs = observe(&mut labs[i], &req, 8).await?;
+                            let d = judge(cfg, st, &labs[i].w, c, p, enc, &e, &req, &obs, &exp_i, &canon[ei][i], None);
+                            // a rejection byte for byte; a read of the caller's own database modulo
+                            // the clock-dependent statistics
+                            let same = if exp0 == Expect::Reject { obs.resp == obs0.resp } else { masked(&obs.resp) == masked(&obs0.resp) };
+                            if !same {
+                                viol(st, format!("C14/isolation/differs_across_worlds/{}", c.kind),
+                                     json!({"what": "the same request is answered differently depending on B's existence, key or lifecycle state",
+                                            "life": format!("{life:?}"), "caller": c.label, "path": p.label, "request": req.describe(),
+                                            "world": world_desc(&labs[i].w), "got": obs.resp.describe(),
+                                            "reference_world_b_keyed": obs0.resp.describe()}));
+                            }
+                            if d {
+                                labs[i].rebuild().await;
+                            }
+                        }
+                    }
+                    if dirty {
+                        labs[0].rebuild().await;
+                        rebuilt += 1;
+                        st.count("states_world_rebuilds");
+                    }
+                    if st.violations.len() >= STATE_CASE_MAX_VIOLATIONS || rebuilt > 40 {
+                        break 'all;
+                    }
+                }
+            }
+        }
+    }
+    // late writers, as in `rnw` (only meaningful on the world the block started on)
+    if rebuilt == 0 {
+        tokio::time::sleep(std::time::Duration::from_millis(3)).await;
+        drain(50).await;
+        let all = labs[0].w.effective_since(block_mark);
+        st.count("oracle_no_late_write_states");
+        if all.len() != accounted {
+            viol(st, "C14/read_wrote/late",
+                 json!({"what": "storage mutations appeared after the responses were delivered",
+                        "life": format!("{life:?}"), "world": world_desc(&labs[0].w), "accounted": accounted, "total": all.len(),
+                        "tail": describe_muts(&all[all.len().saturating_sub(12)..])}));
+        }
+        // the world is thrown away now: confirm what the running server (not the disk) believes
+        // about B with a request that is allowed to mutate
+        let want_known = match life {
+            Life::UnopenedAfterFailedReopen | Life::ClosedStillRegistered => Some(true),
+            Life::ClosedUnregistered => Some(false),
+            _ => None,
+        };
+        if let Some(want) = want_known {
+            let known = labs[0].w.known_to_server_destructive(&n.b).await;
+            if known == want {
+                st.count(&format!("state_registration_in_memory_confirmed:{kind}"));
+            } else {
+                st.inconclusive(format!("states: {life:?}: the running server {} B at the end of the case (expected the opposite)",
+                                        if known { "knows" } else { "does not know" }));
+            }
+        }
+    }
+    for lab in labs {
+        st.add("worlds_built", lab.builds);
+        lab.w.shutdown().await;
+    }
+    Ok(())
+}
+
+/// Mutation attempts of one uninterrupted keyed `db.create` (sizes the enumeration of the cuts).
+fn create_mutation_attempts(names: &Names, keys: &Keys) -> u64 {
+    let rt = new_runtime();
+    rt.block_on(async {
+        let w = World::build(WorldSpec { names: names.clone(), keys: keys.clone(), bmode: BMode::Absent, life: Life::Warm }).await;
+        let before = w.rec.attempts();
+        w.admin_ok("/", "db.create", json!({"name": names.b, "api_key": keys.b})).await;
+        drain(8).await;
+        let n = w.rec.attempts() - before;
+        w.shutdown().await;
+        n
+    })
+}
+
+// ---------------------------------------------------------------------------------------------
 // monitor 3: histories of lifecycle and key operations, with a model of the bindings
 
 const HIST_DBS: [&str; 3] = ["hist_alpha", "hist_zebra_zq", "hist_cedar"];
@@ -1561,8 +1797,8 @@ fn main() {
         "C14",
         "exploration",
         "a matrix request is the tuple (caller, path, encoding, method entry) and every tuple is \
-         distinct and executed; rnw executions are distinct by (lifecycle state, caller, database, \
-         encoding, method); a history is non-trivial when it uses >= 5 operation kinds (distinct \
+         distinct and executed; rnw and states executions are distinct by (lifecycle state, caller, \
+         database, encoding, method); a history is non-trivial when it uses >= 5 operation kinds (distinct \
          by operation sequence)",
     );
     run.assume("keyless mode (no admin key) is open by design (auth.rs rule 1) and is not driven; the worlds always run with an admin key");
@@ -1570,6 +1806,8 @@ fn main() {
     run.assume("own-database reads of a database key are compared across the B-worlds modulo integers in the unix-millisecond range and the clock-dependent statistics fields version/last_saved/check_point/total_*/get_count/search_count (storage metadata writes are rate-limited by wall-clock milliseconds)");
     run.assume("a read that names a collection whose handle is not loaded performs the lazy open documented in api/collection.rs::open (detached task, may flush): its writes are counted and confined to the database prefix, the reads-never-write oracle measures the read on the loaded handle");
     run.assume("database <-> storage mapping: every object of database X lives under the prefix `X/` (anda_db: Path::from(db.name())); no server-level bookkeeping is documented for (or was observed from) a database-scope request, so a database key may mutate nothing outside that prefix");
+    run.assume("lifecycle states: a registered database whose reopen failed is reached with a fault layer (the repository's anda_object_store::FaultStore, pass-through unless a rule is pushed) between AppState and the recording store: every GET under `<B>/` fails while AppState::connect runs and the rule is cleared before the first probe; `db.close` with a failed registry write = every PUT under `<primary>/` fails during that one request; interrupted creation = RecStore FailBefore / PowerOffAfter at the n-th mutation of the db.create request (cleared after the answer) or a restart over the first n landed mutations. Whether the binding of an interrupted creation survives is documented as best-effort (state.rs undo_api_key_binding) and is observed, not prescribed; the oracles are then applied for the caller class observed");
+    run.assume("the in-memory registration of a dormant database is not observable without a mutation: it is confirmed at the end of the case, on the world that is thrown away, by the admin's db.set_api_key (404 for an unknown name); the persisted registration by a throw-away AppState over a copy of the store");
     run.assume("flush_interval is one day so that the periodic flush task never fires inside a measured window; spawned tasks are drained with yield_now rounds plus one 3 ms sleep per lifecycle block");
 
     let dir = server_crate_dir(run.args.get("server_src"));
@@ -1647,6 +1885,19 @@ fn main() {
                 drive!(st, "rnw", rnw_case(&cfg, ALL_LIVES[case as usize], st));
             });
         }
+        if run.wants("states") {
+            let n_cut = create_mutation_attempts(&names, &keys).min(12) as u8;
+            run.stats.max("create_mutation_attempts", n_cut as u64);
+            let mut lives: Vec<Life> = DORMANT_LIVES.to_vec();
+            for cut in 0..n_cut {
+                lives.push(Life::CreateFailedAt(cut));
+                lives.push(Life::CreateOutageAt(cut));
+                lives.push(Life::CreateCrashedAt(cut));
+            }
+            run.parallel(&format!("states_p{pair}"), lives.len() as u64, 0.5, |case, _rng, st| {
+                drive!(st, "states", states_case(&cfg, lives[case as usize], st));
+            });
+        }
         if run.wants("guards") {
             run.parallel(&format!("guards_p{pair}"), 1, 0.3, |_c, _rng, st| {
                 drive!(st, "guards", guards_case(&cfg, st));
@@ -1702,6 +1953,44 @@ fn main() {
     for (m, e) in table.root.iter().chain(table.db.iter()) {
         if *e == Effect::Read {
             run.floor(&format!("rnw:{m}"), 14);
+        }
+    }
+    // lifecycle states: every fixed state probed, every Read-labelled database method under both
+    // encodings by the admin and by B's key on the dormant B, and by the admin and A's key on A
+    let n_read_db = table.db.iter().filter(|(_, e)| *e == Effect::Read).count() as u64;
+    let n_pairs = pairs.len() as u64;
+    for life in DORMANT_LIVES {
+        let kind = life.kind();
+        run.floor(&format!("state:{kind}"), n_pairs);
+        run.floor(&format!("state_read:{kind}"), n_pairs * n_read_db * 4);
+        if life.b_must_be_dormant() {
+            for who in ["admin", "key_b"] {
+                run.floor(&format!("state_dormant_read:{kind}:{who}"), n_pairs * n_read_db * 2);
+                run.floor(&format!("state_dormant_mutating:{kind}:{who}"), n_pairs * 2);
+            }
+            run.floor(&format!("state_registration_in_memory_confirmed:{kind}"), n_pairs);
+        } else {
+            run.floor(&format!("state_b_served:{kind}"), n_pairs);
+        }
+        if life.b_must_be_registered().is_some() {
+            run.floor(&format!("state_registry_on_disk_confirmed:{kind}"), n_pairs);
+        }
+        for who in ["key_a", "none", "key_b_other"] {
+            run.floor(&format!("state_rejected:{kind}:{who}"), n_pairs * 100);
+        }
+    }
+    for kind in ["CreateFailedAt", "CreateOutageAt", "CreateCrashedAt"] {
+        run.floor(&format!("state:{kind}"), n_pairs * 3);
+        run.floor(&format!("state_read:{kind}"), n_pairs * 3 * n_read_db * 4);
+    }
+    run.floor("create_interrupted:CreateFailedAt", n_pairs * 2);
+    run.floor("create_interrupted:CreateOutageAt", n_pairs * 2);
+    run.floor_set("create_cut_outcomes", 3);
+    run.floor("oracle_state_relational", n_pairs * 5_000);
+    run.floor("oracle_no_late_write_states", n_pairs * 10);
+    for (m, e) in table.db.iter() {
+        if *e == Effect::Read {
+            run.floor(&format!("state_read_method:{m}"), n_pairs * 40);
         }
     }
     run.floor("hist_probes", 20_000);
